@@ -88,8 +88,8 @@ PROPS = {
              "its epilogue) is excluded by construction and counted; TestC11KnownF07 reproduces it deterministically. "
              "Non-trivial: >= 2 requests in flight when a response, a connection loss or a quit arrived.",
         assumptions=ASSUME_SIM,
-        quick=dict(engines=[rapid('^TestC11Requests', 2400, steps=40), rapid('^TestC11KnownF07', 3, shards=1, fixed=True)]),
-        thorough=dict(engines=[rapid('^TestC11Requests', 60000, shards=14, steps=70, timeout=1500), rapid('^TestC11Requests', 2000, shards=8, steps=50, timeout=1500, race=True), rapid('^TestC11KnownF07', 3, shards=1, fixed=True)]),
+        quick=dict(engines=[rapid('^TestC11Requests', 2400, steps=40), rapid('^TestC11CounterLap', 8, shards=8, fixed=True), rapid('^TestC11KnownF07', 3, shards=1, fixed=True)]),
+        thorough=dict(engines=[rapid('^TestC11Requests', 60000, shards=14, steps=70, timeout=1500), rapid('^TestC11Requests', 2000, shards=8, steps=50, timeout=1500, race=True), rapid('^TestC11CounterLap', 56, shards=14, timeout=1500, fixed=True), rapid('^TestC11KnownF07', 3, shards=1, fixed=True)]),
     ),
     'C12': dict(
         claimed=True,
@@ -407,7 +407,9 @@ RULE_ADDENDA = {
     'C10': "Also: reader states skipping-dup-big (discarding the payload of a retransmitted exactly-once message larger than the "
            "read buffer, tail outstanding) and holding-big-tail-outstanding; failure 'silence' (nothing but PauseTimeout); in state handshake the broker may stay silent for good. Extra "
            "invariant: once ReadSlices reported an error while reading from a connection, no later ReadSlices reads from it.",
-    'C11': "Also: connectFails (connection lost; the next attempt parks in the Dialer or in the handshake; 1-3 requests are "
+    'C11': "TestC11CounterLap: 3-40 (thorough up to 530) Subscribe/Unsubscribe requests stay unanswered (every 3rd or 7th "
+           "abandoned, or none), then 8200 answered requests make the 13-bit identifier counter lap them; answers for the open "
+           "ones follow in forward, reverse or interleaved order. Also: connectFails (connection lost; the next attempt parks in the Dialer or in the handshake; 1-3 requests are "
            "issued meanwhile; the attempt fails; they must return without any further ReadSlices).",
     'C12': "Also: in state dialing the Dialer may ignore the end of its context and hand out a connection after Close (it must "
            "be closed; Close itself need not beat such a Dialer).",
